@@ -53,6 +53,28 @@ package dense
 //@   pure
 //@   reads    fwdBuilder.l
 //@   ensures  result == fb.l.Merge(a, b)
+// ---- the worklist invariant: every visited block has transferred its current input to its
+// out-edges (outOK), and every visited block that is NOT on the worklist has the merge of its
+// in-edge facts as input (inOK). When the worklist is empty every visited block is stable: the
+// stored facts are a fixpoint of the flow equations. (Least-ness is not claimed.) ----
+//@ ghost outOK(tr func(NodeID, NodeID, Fact) Fact, nm *graph.Index, cfg graph.Graph, bs []blockInfo, n int) bool = bs[n].dirty || (forall j int :: {bs[n].out[j]} 0 <= j && j < len(outSeq(cfg, n)) ==> bs[n].out[j] == apply(tr, nm.Value(n), nm.Value(outSeq(cfg, n)[j]), bs[n].in))
+//@ ghost inOK(l L, bs []blockInfo, n int) bool = bs[n].dirty || len(bs[n].preds) == 0 || bs[n].in == mfold(l, bs, bs[n].preds, len(bs[n].preds))
+// in-edges mirror out-edges (what Forward builds before it calls propagate)
+//@ ghost predsWF(cfg graph.Graph, bs []blockInfo) bool = forall m int, t int :: {bs[m].preds[t]} 0 <= m && m < len(bs) && 0 <= t && t < len(bs[m].preds) ==> 0 <= bs[m].preds[t].node && bs[m].preds[t].node < len(bs) && 0 <= bs[m].preds[t].i && bs[m].preds[t].i < len(outSeq(cfg, bs[m].preds[t].node)) && outSeq(cfg, bs[m].preds[t].node)[bs[m].preds[t].i] == m
+// the merge over in-edges depends only on the facts of those edges
+//@ lemma mfold_frame(l L, bs []blockInfo, bs2 []blockInfo, ps []blockEdge, n int)
+//@   requires n >= 1 && (forall t int :: {ps[t]} 0 <= t && t < n ==> efact(l, bs, ps[t]) == efact(l, bs2, ps[t]))
+//@   ensures  mfold(l, bs, ps, n) == mfold(l, bs2, ps, n)
+//@   induct   n
+//@   trigger  mfold(l, bs, ps, n), mfold(l, bs2, ps, n)
+
+// a block whose own record and whose in-edge facts are unchanged keeps inOK
+//@ lemma inok_frame(l L, bs []blockInfo, bs2 []blockInfo, n int)
+//@   uses     mfold_frame
+//@   requires len(bs[n].preds) >= 0 && bs2[n] == bs[n] && inOK(l, bs, n) && (forall t int :: {bs[n].preds[t]} 0 <= t && t < len(bs[n].preds) ==> efact(l, bs, bs[n].preds[t]) == efact(l, bs2, bs[n].preds[t]))
+//@   ensures  inOK(l, bs2, n)
+//@   trigger  inOK(l, bs, n), inOK(l, bs2, n)
+
 // For the block taken from the worklist:
 //   [inmerge] the new input is the merge of the facts on its in-edges (or its old input if it
 //             has no in-edges);
@@ -61,11 +83,26 @@ package dense
 //   [enq]     a successor whose edge fact changed is on the worklist.
 // The global claim (least fixpoint on termination) is NOT derived from these step facts here.
 //@ func (*fwdBuilder).propagate
-//@   uses     lat
+//@   uses     lat, mfold_frame, inok_frame
 //@   requires fb != nil
 // (the compact graph's node ids index the worklist bitmap, which init sized for them)
-//@   requires forall n int, k int :: {outSeq(fb.cfg, n)[k]} 0 <= outSeq(fb.cfg, n)[k] && outSeq(fb.cfg, n)[k] < 64*len(fb.queue.inQueue)
+//@   requires forall n int, k int :: {outSeq(fb.cfg, n)[k]} 0 <= k && k < len(outSeq(fb.cfg, n)) ==> 0 <= outSeq(fb.cfg, n)[k] && outSeq(fb.cfg, n)[k] < 64*len(fb.queue.inQueue)
+//@   requires predsWF(fb.cfg, fb.blocks) && 64*len(fb.queue.inQueue) >= len(fb.blocks)
+//@   requires forall n int :: {fb.blocks[n]} 0 <= n && n < len(fb.blocks) ==> len(fb.blocks[n].preds) >= 0
+//@   requires forall n int :: {fb.blocks[n]} 0 <= n && n < len(fb.blocks) ==> len(fb.blocks[n].out) == len(outSeq(fb.cfg, n))
+//@   requires forall n int :: {fb.blocks[n].dirty} 0 <= n && n < len(fb.blocks) && fb.blocks[n].dirty ==> inq(fb.queue.inQueue, n)
+//@   requires forall n int :: {fb.blocks[n]} 0 <= n && n < len(fb.blocks) ==> outOK(fb.transfer, fb.nodeMap, fb.cfg, fb.blocks, n)
+//@   requires forall n int :: {fb.blocks[n]} 0 <= n && n < len(fb.blocks) && !inq(fb.queue.inQueue, n) ==> inOK(fb.l, fb.blocks, n)
+//@   ensures  [fixpoint] forall n int :: {fb.blocks[n]} 0 <= n && n < len(fb.blocks) && !inq(fb.queue.inQueue, n) ==> !fb.blocks[n].dirty && outOK(fb.transfer, fb.nodeMap, fb.cfg, fb.blocks, n) && inOK(fb.l, fb.blocks, n)
 //@   loop 1   invariant [bitmap]  len(fb.queue.inQueue) == len(old(fb.queue.inQueue))
+//@   loop 1   invariant [shape]   len(fb.blocks) == len(old(fb.blocks)) && (forall m int :: {fb.blocks[m].preds} 0 <= m && m < len(fb.blocks) ==> fb.blocks[m].preds == old(fb.blocks)[m].preds && len(fb.blocks[m].out) == len(old(fb.blocks)[m].out))
+//@   loop 1   invariant [dirty]   forall n int :: {fb.blocks[n].dirty} 0 <= n && n < len(fb.blocks) && fb.blocks[n].dirty ==> inq(fb.queue.inQueue, n)
+//@   loop 1   invariant [outok]   forall n int :: {fb.blocks[n]} 0 <= n && n < len(fb.blocks) ==> outOK(fb.transfer, fb.nodeMap, fb.cfg, fb.blocks, n)
+//@   loop 1   invariant [inok]    forall n int :: {fb.blocks[n]} 0 <= n && n < len(fb.blocks) && !inq(fb.queue.inQueue, n) ==> inOK(fb.l, fb.blocks, n)
+//@   loop 3   exhausts  i == len(outSeq(fb.cfg, bi))
+//@   loop 3   invariant [others]  forall n int :: {fb.blocks[n]} 0 <= n && n < len(fb.blocks) && n != bi && !inq(fb.queue.inQueue, n) ==> inOK(fb.l, fb.blocks, n)
+//@   loop 3   invariant [qmono]   forall m int :: {inq(fb.queue.inQueue, m)} 0 <= m && m < 64*len(fb.queue.inQueue) && inq(loopentry(fb.queue.inQueue), m) ==> inq(fb.queue.inQueue, m)
+//@   loop 3   invariant [frame]   len(fb.blocks) == len(loopentry(fb.blocks)) && (forall m int :: {fb.blocks[m]} m != bi ==> fb.blocks[m] == loopentry(fb.blocks)[m]) && fb.blocks[bi].in == loopentry(fb.blocks)[bi].in && fb.blocks[bi].preds == loopentry(fb.blocks)[bi].preds
 //@   nosafe   all
 //@   may_panic
 //@   modifies heap
@@ -73,7 +110,7 @@ package dense
 //@   loop 2   index e
 //@   loop 2   invariant [first]   first == (e == 0)
 //@   loop 2   invariant [inmerge] e > 0 ==> in == mfold(fb.l, fb.blocks, fb.blocks[bi].preds, e)
-//@   loop 3   yields    succNum == outSeq(fb.cfg, bi)[i]
+//@   loop 3   yields    succNum == outSeq(fb.cfg, bi)[i] && i < len(outSeq(fb.cfg, bi))
 //@   loop 3   invariant [out]     i >= 0 && (forall j int :: {fb.blocks[bi].out[j]} 0 <= j && j < i ==> fb.blocks[bi].out[j] == apply(fb.transfer, predID, fb.nodeMap.Value(outSeq(fb.cfg, bi)[j]), in))
 //@   loop 3   ghost     out0 = fb.blocks[bi].out
 //@   loop 3   ghost     d0 = fb.blocks[bi].dirty
